@@ -185,6 +185,11 @@ DISP_RELY = dict(
     rely=[("stop_is_sticky", "implies(old(self._stopped), self._stopped)"),
           ("jobs_only_added", "forall(lambda j=ScheduledJob: implies(old(j in self._scheduler_queue._queue), j in self._scheduler_queue._queue))")])
 
+# the same rely for coroutines that never look at an event source (the untyped list-length array cannot tell a handler
+# list from a source's queue, so the havoc of the sources is left out where it is unobservable; assumption: a list of
+# handlers is never at the same time the queue of an event source -- their element types differ)
+DISP_RELY_NOSRC = dict(rely_havoc=[x for x in DISP_RELY["rely_havoc"] if "EventSource" not in x], rely=DISP_RELY["rely"])
+
 ED = D + "EventDispatcher."
 TG = H + "TaskGroup."
 STOP_MOD = ["self._stopped", "every(Task, 'cancel_requested')"]
@@ -255,3 +260,119 @@ contract(ED + "subscribe", props=["C12"], types={"event_handler": "Fun"},
                   ("producer_registered", "implies(not_none(source.producer), source.producer in self._producers)")],
          modifies=["content(self._event_mux._prefetched_events)", "content(self._event_handlers)",
                    "content(self._event_handlers[source])", "content(self._producers)"])
+
+# C12: "running front-running catch-all handlers first, then the source's handlers started in subscription order, then the
+# other catch-all handlers" -- ghost trace of the gathered batches (each batch = one list, elements in list order;
+# asyncio.gather starts its children in argument order: assumed asyncio contract)
+contract(ED + "_dispatch_event", props=["C12", "C14", "C15"],
+         requires=[("clock_is_event_time", "implies(typeis(self, 'BacktestingDispatcher'), not_none(self._last_dt) and event_dispatch.event.when <= self._last_dt)"),
+                   ("due", "implies(typeis(self, 'RealtimeDispatcher'), event_dispatch.event.when <= clock('utc'))")],
+         ensures=[("stages", "stages_in_order('_call_event_handler', event_dispatch.event, self._sniffers_pre, event_dispatch.handlers, self._sniffers_post)")],
+         may_suspend=True, raises={"CancelledError": []}, modifies=STOP_MOD, **DISP_RELY_NOSRC)
+
+# ---------------------------------------------------------------------------------------------------------------------
+# BacktestingDispatcher (C12 clock / order, C13 scheduled jobs, C03 pass structure)
+# rely (default TaskPool model): the pool and the clock belong to the dispatch loop; handlers may schedule, stop, push events
+# ---------------------------------------------------------------------------------------------------------------------
+BD = D + "BacktestingDispatcher."
+specfun("pool_idle", ["d"], "tp_wf(d._handlers_task_pool) and len(d._handlers_task_pool._tasks) == 0")
+POOL_MOD = ["content(self._handlers_task_pool._tasks)", "content(self._handlers_task_pool._done)"]
+contract(BD + "now", props=["C12"], returns="DT", raises={"Error": [("no_clock", "is_none(self._last_dt)")]},
+         ensures=[("clock", "not_none(self._last_dt) and result == self._last_dt")], modifies=[])
+contract(BD + "now_available", props=["C12"], returns="Bool", ensures=[("def", "result == not_none(self._last_dt)")], modifies=[])
+contract(BD + "_set_now", props=["C12"], types={"now": "DT"},
+         raises={"AssertionError": [("backwards", "not_none(self._last_dt) and now < self._last_dt")]},
+         ensures=[("set", "self._last_dt == now")], modifies=["self._last_dt"])
+CLOCK_MONOTONE = ("clock_never_backwards", "implies(not_none(old(self._last_dt)), not_none(self._last_dt) and self._last_dt >= old(self._last_dt))")
+CLOCK_BOUND = ("clock_not_past_dt", "implies(not_none(self._last_dt), (not_none(old(self._last_dt)) and self._last_dt == old(self._last_dt)) or self._last_dt <= dt)")
+contract(BD + "_dispatch_scheduled", props=["C13", "C12"], types={"dt": "DT"},
+         requires=[("pool_idle", "pool_idle(self)")],
+         ensures=[# C13: every job due at or before dt has been taken out of the queue (and handed to the pool, one at a time)
+                  ("drained", "forall(lambda j=ScheduledJob: implies(j in self._scheduler_queue._queue, j.when > dt))"),
+                  CLOCK_MONOTONE, CLOCK_BOUND,
+                  ("barrier", "pool_idle(self)")],
+         may_suspend=True, cancellable=True, raises={"CancelledError": []},
+         modifies=["self._last_dt", "content(self._scheduler_queue._queue)"] + POOL_MOD,
+         loops={0: dict(invariant=[
+             ("pool_idle", "pool_idle(self)"),
+             ("peeked", "is_none(next_scheduled_dt) == forall(lambda j=ScheduledJob: not (j in self._scheduler_queue._queue))"),
+             ("peeked_min", "implies(not_none(next_scheduled_dt), sq_min(self._scheduler_queue, next_scheduled_dt) and sq_has(self._scheduler_queue, next_scheduled_dt))"),
+             ("clock_never_backwards", "implies(not_none(ENTRY(self._last_dt)), not_none(self._last_dt) and self._last_dt >= ENTRY(self._last_dt))"),
+             ("clock_not_past_dt", "implies(not_none(self._last_dt), (not_none(ENTRY(self._last_dt)) and self._last_dt == ENTRY(self._last_dt)) or self._last_dt <= dt)")],
+             modifies=["self._last_dt", "content(self._scheduler_queue._queue)"] + POOL_MOD)},
+         **DISP_RELY)
+contract(BD + "_dispatch_events", props=["C12", "C03"], types={"dt": "DT"},
+         requires=[("pool_idle", "pool_idle(self)"),
+                   ("not_backwards", "implies(not_none(self._last_dt), dt >= self._last_dt)")],
+         ensures=[("clock_is_pass_time", "not_none(self._last_dt) and self._last_dt == dt"),
+                  # C12/C03: all handlers of this pass have finished before the clock can move on
+                  ("barrier", "pool_idle(self)")],
+         may_suspend=True, cancellable=True, raises={"CancelledError": []},
+         modifies=["self._last_dt", "content(self._event_mux._prefetched_events)", "every(EventSource)"] + POOL_MOD,
+         loops={0: dict(invariant=[("clock_is_pass_time", "not_none(self._last_dt) and self._last_dt == dt"),
+                                   ("pool_wf", "tp_wf(self._handlers_task_pool)")],
+                        modifies=["content(self._event_mux._prefetched_events)", "every(EventSource)"] + POOL_MOD)},
+         **DISP_RELY)
+contract(BD + "_dispatch_loop", props=["C12", "C13"],
+         requires=[("pool_idle", "pool_idle(self)")],
+         ensures=[("stopped", "self._stopped"), CLOCK_MONOTONE],
+         may_suspend=True, cancellable=True,
+         # the assert at the top of the loop is the property's hypothesis (sources yield non-decreasing times)
+         raises={"CancelledError": [], "AssertionError": []},
+         modifies=["self._last_dt", "content(self._scheduler_queue._queue)", "content(self._event_mux._prefetched_events)",
+                   "every(EventSource)"] + POOL_MOD + STOP_MOD,
+         loops={0: dict(invariant=[("pool_idle", "pool_idle(self)"),
+                                   ("clock_never_backwards", "implies(not_none(ENTRY(self._last_dt)), not_none(self._last_dt) and self._last_dt >= ENTRY(self._last_dt))")],
+                        modifies=["self._last_dt", "content(self._scheduler_queue._queue)", "content(self._event_mux._prefetched_events)",
+                                  "every(EventSource)"] + POOL_MOD + STOP_MOD)},
+         **DISP_RELY)
+
+# ---------------------------------------------------------------------------------------------------------------------
+# RealtimeDispatcher (C15 safety clauses; C14 bounded concurrency under concurrent pushers)
+# rely: DISP_RELY plus the @shared TaskPool model (the two pushers and the idle pushes run concurrently)
+# ---------------------------------------------------------------------------------------------------------------------
+RD = D + "RealtimeDispatcher."
+RT_RELY = dict(
+    rely_havoc=DISP_RELY["rely_havoc"] + ["content(self._handlers_task_pool._tasks)", "content(self._handlers_task_pool._done)"],
+    rely=DISP_RELY["rely"] + [("pool_bounded", "len(self._handlers_task_pool._tasks) <= self._handlers_task_pool._max_size")],
+    callee_variant="shared")
+contract(RD + "now", props=["C15"], returns="DT", ensures=[("clock", "result >= old(clock('utc'))")], modifies=[])
+contract(ED + "on_error", props=["C15"], types={"error": "Any"}, modifies=[])
+contract(RD + "_push_scheduled", props=["C15", "C14"], types={"dt": "DT"},
+         requires=[("pool_wf", "tp_wf(self._handlers_task_pool)"), ("not_future", "dt <= clock('utc')")],
+         ensures=[("pool_wf", "tp_wf(self._handlers_task_pool)"),
+                  ("due_jobs_taken", "forall(lambda j=ScheduledJob: implies(j in self._scheduler_queue._queue, j.when > dt))")],
+         may_suspend=True, cancellable=True, raises={"CancelledError": []},
+         modifies=["content(self._scheduler_queue._queue)"] + POOL_MOD,
+         loops={0: dict(invariant=[("pool_wf", "tp_wf(self._handlers_task_pool)")],
+                        modifies=["content(self._scheduler_queue._queue)"] + POOL_MOD)},
+         **RT_RELY)
+PREV_MONOTONE = ("forall(lambda s=EventSource: implies({0}(s in self._prev_event_dt), (s in self._prev_event_dt) "
+                 "and self._prev_event_dt[s] >= {0}(self._prev_event_dt[s])))")
+contract(RD + "_push_events", props=["C15", "C14"], types={"dt": "DT"},
+         requires=[("pool_wf", "tp_wf(self._handlers_task_pool)"), ("not_future", "dt <= clock('utc')")],
+         ensures=[("pool_wf", "tp_wf(self._handlers_task_pool)"),
+                  # per source the time of the last delivered event never decreases: an older event is dropped
+                  ("per_source_order", PREV_MONOTONE.format("old"))],
+         may_suspend=True, cancellable=True, raises={"CancelledError": []},
+         modifies=["content(self._prev_event_dt)", "content(self._event_mux._prefetched_events)", "every(EventSource)"] + POOL_MOD,
+         loops={0: dict(invariant=[("pool_wf", "tp_wf(self._handlers_task_pool)"),
+                                   ("per_source_order", PREV_MONOTONE.format("ENTRY"))],
+                        modifies=["content(self._prev_event_dt)", "content(self._event_mux._prefetched_events)", "every(EventSource)"] + POOL_MOD)},
+         **RT_RELY)
+# C15: "idle handlers run only when nothing is being handled" -- the precondition is demanded at the call site
+contract(RD + "_on_idle", props=["C15"], trusted=True, may_suspend=True,
+         requires=[("pool_is_idle", "len(self._handlers_task_pool._tasks) == 0")],
+         ensures=[("pool_wf", "tp_wf(self._handlers_task_pool)")],
+         raises={"CancelledError": []}, modifies=POOL_MOD,
+         notes="body not verified: a comprehension over calls of opaque idle handlers passed through gather_no_raise(*...)")
+contract(RD + "_dispatch_loop", props=["C15", "C14"],
+         requires=[("pool_wf", "tp_wf(self._handlers_task_pool)")],
+         ensures=[("stopped", "self._stopped")],
+         may_suspend=True, cancellable=True, raises={"CancelledError": []},
+         modifies=["content(self._scheduler_queue._queue)", "content(self._prev_event_dt)", "content(self._event_mux._prefetched_events)",
+                   "every(EventSource)"] + POOL_MOD,
+         loops={0: dict(invariant=[("pool_wf", "tp_wf(self._handlers_task_pool)")],
+                        modifies=["content(self._scheduler_queue._queue)", "content(self._prev_event_dt)",
+                                  "content(self._event_mux._prefetched_events)", "every(EventSource)"] + POOL_MOD)},
+         **RT_RELY)
